@@ -187,15 +187,39 @@ pub fn tree(t: &Tree) -> String {
     format!("(t {} {}{})", optn(t.id), node(&t.node), t.children.iter().map(|c| format!(" {}", tree(c))).collect::<String>())
 }
 
+/// source file of the last panic of the process (set by the hook installed in `main`; a panic inside a rayon job is
+/// raised on a worker thread and re-thrown on the caller's, so this is not a thread-local)
+pub static LAST_PANIC_FILE: std::sync::Mutex<String> = std::sync::Mutex::new(String::new());
+
+/// the quiet panic hook of the harness: nothing on stderr, the panic's source file is remembered
+pub fn install_panic_hook(show: bool) {
+    std::panic::set_hook(Box::new(move |info| {
+        let file = info.location().map(|l| l.file().rsplit('/').next().unwrap_or("").to_string()).unwrap_or_default();
+        if let Ok(mut f) = LAST_PANIC_FILE.lock() {
+            *f = file;
+        }
+        if show {
+            eprintln!("{}", info);
+        }
+    }));
+}
+
+/// the panic message, followed by ` [at <source file>]` (messages get reworded; the file a panic comes from is what
+/// known findings are matched on)
 pub fn catch<T>(f: impl FnOnce() -> T) -> Result<T, String> {
+    if let Ok(mut f) = LAST_PANIC_FILE.lock() {
+        f.clear();
+    }
     std::panic::catch_unwind(std::panic::AssertUnwindSafe(f)).map_err(|e| {
-        if let Some(s) = e.downcast_ref::<&str>() {
+        let msg = if let Some(s) = e.downcast_ref::<&str>() {
             s.to_string()
         } else if let Some(s) = e.downcast_ref::<String>() {
             s.clone()
         } else {
             "panic".to_string()
-        }
+        };
+        let file = LAST_PANIC_FILE.lock().map(|f| f.clone()).unwrap_or_default();
+        if file.is_empty() { msg } else { format!("{} [at {}]", msg, file) }
     })
 }
 
